@@ -43,6 +43,11 @@ CRASH_SHAPES = [
     "SELECT * FROM `nosuchfn=>t`",
     "SELECT * FROM `t{a|bogus}`",
     "SELECT * FROM `t::[`",
+    # a path INTO a not yet evaluated CTE: the selector runs the CTE's thunk, which reads paths itself
+    "WITH x AS (SELECT * FROM t) SELECT * FROM `x.items`",
+    "WITH x AS (SELECT a FROM t) SELECT `x[0].a` AS v FROM dual",
+    "WITH x AS (SELECT a FROM t), y AS (SELECT * FROM `x[(0:1)]`) SELECT * FROM y",
+    "SELECT a FROM t",
     "SELECT * FROM t x PARALLEL JOIN u y ON x.a + 1 = y.a",
     "SELECT * FROM t x PARALLEL JOIN u y ON VF_PANIC(TRUE) = y.a",
     "SELECT * FROM t x PARALLEL HASH_JOIN u y ON x.nokey.deep = y.a",
